@@ -73,24 +73,27 @@ type Sample struct {
 
 // Session is the state shared by all workers exploring one harness.
 type Session struct {
-	Prog       *ssa.Program
-	Fn         *ssa.Function
-	Harness    string
-	Arg        *string // optional single string argument of the harness function
-	Sizes      types.Sizes
-	PropPrefix string // only assertions labelled "<PropPrefix>/..." or unprefixed are checked
-	FloatMode  string // "ieee" | "grid"
-	SolverKind string
-	TimeoutS   int
-	StepBudget int64
-	MaxPaths   int
-	Known      []Known
-	Stubs      *StubTable
-	QueryLog   string
-	Trace      bool
-	WantSample int // number of completed paths to sample with model+observations
-	InlineGo   bool // `go f()` runs f inline (stated per harness)
-	ExtraInits []*ssa.Function // package initialisers to run before the harness package's
+	Prog         *ssa.Program
+	Fn           *ssa.Function
+	Harness      string
+	Arg          *string // optional single string argument of the harness function
+	Sizes        types.Sizes
+	PropPrefix   string // only assertions labelled "<PropPrefix>/..." or unprefixed are checked
+	FloatMode    string // "ieee" | "grid"
+	SolverKind   string
+	TimeoutS     int
+	StepBudget   int64
+	MaxPaths     int
+	Known        []Known
+	Stubs        *StubTable
+	QueryLog     string
+	Trace        bool
+	WantSample   int             // number of completed paths to sample with model+observations
+	InlineGo     bool            // `go f()` runs f inline (stated per harness)
+	LazyGo       bool            // lazy scheduling policy (sched.go); InlineGo = eager policy
+	SchedChoices int             // the first n scheduling points with several candidates are symbolic choices
+	Preemptions  int             // vYield points may hand over to another goroutine at most this often (symbolic)
+	ExtraInits   []*ssa.Function // package initialisers to run before the harness package's
 	// PermuteRanges: functions (ssa names) whose `range` over a map of 2-3 keys
 	// is explored in every order instead of the deterministic sorted one
 	PermuteRanges map[string]bool
@@ -99,11 +102,11 @@ type Session struct {
 	ReloadReturn map[token.Pos][]int
 	// CrossCheck > 0: re-decide up to that many assertion queries per harness with
 	// z3 5.1 (z3-new) and cvc5, one-shot; any sat/unsat disagreement is inconclusive
-	CrossCheck     int
-	CrossChecked   int
-	CrossAgree     int
-	CrossUnknown   int
-	crossSeen      int
+	CrossCheck    int
+	CrossChecked  int
+	CrossAgree    int
+	CrossUnknown  int
+	crossSeen     int
 	IntrinsicPkgs map[string]bool
 
 	mu            sync.Mutex
@@ -792,7 +795,9 @@ func (ex *Explorer) RunPath(prefix []Dec) (outcome string) {
 	}
 
 	defer func() {
-		if r := recover(); r != nil {
+		r := recover()
+		i.killGoroutines() // no interpreted goroutine outlives its path
+		if r != nil {
 			switch r := r.(type) {
 			case pathAbort:
 				switch r.kind {
@@ -873,6 +878,7 @@ func (ex *Explorer) RunPath(prefix []Dec) (outcome string) {
 	} else {
 		call(i, nil, token.NoPos, s.Fn, nil)
 	}
+	i.drain() // goroutines still runnable when the harness returns run on (their panics count)
 	return "ok"
 }
 
@@ -1103,9 +1109,8 @@ func (c *mchan) recv() (value, bool) {
 	if c.closed {
 		return nil, false
 	}
-	// every goroutine has already run to completion under this model: nothing can
-	// ever send on or close this channel, the receiver hangs
-	panic(pathAbort{"budget", "receive on an open, empty channel after every producer has finished: the receiver blocks forever"})
+	// (the scheduler only lets a receiver continue when something can be received)
+	panic(pathAbort{"budget", "receive on an open, empty channel: the receiver blocks forever"})
 }
 
 func (c *mchan) close() {
@@ -1117,7 +1122,6 @@ func (c *mchan) close() {
 	}
 	c.closed = true
 }
-
 
 // ---- abstract byte slices with symbolic length (no element access) ----
 
@@ -1157,7 +1161,6 @@ func (s symSlice) reslice(lo, hi, max value) value {
 		ln:   binop(token.SUB, nil, hi, lo),
 		capv: binop(token.SUB, nil, capEnd, lo)}
 }
-
 
 // permuteKeys reorders the keys of a map iteration by a symbolic permutation.
 func (ex *Explorer) permuteKeys(sm *sortedMapIter) {
